@@ -33,7 +33,7 @@ RULE = (
     "to the warm-cache initial state; distinct = distinct (state key, operation)."
 )
 ASSUMPTIONS = [
-    "alphabet of ~95 concrete operations over a fixed name universe (DESIGN.md C03)",
+    "alphabet of 116 concrete operations (105 mutator calls + 11 queries) over a fixed name universe (DESIGN.md C03)",
     "states reached by a failing transition are not expanded",
 ]
 
@@ -638,6 +638,12 @@ def replay(case):
 # known-finding predicates are keyed by the operation (call site)
 def _op_is(*names):
     return lambda case: OPS[case["op"]][0] in names
+
+
+def describe(case):
+    """Readable form of a transition for the evidence file."""
+    return {"initial_state": f"{'warm' if case['init'] % 2 else 'cold'} cache, base model {case['init'] // 2}",
+            "history": [list(OPS[i]) for i in case["hist"]], "operation": list(OPS[case["op"]])}
 
 
 PREDICATES = {}
